@@ -12,8 +12,8 @@ def mode_wccn(p):
         X = np.vstack([rs.normal(size=(n, D)) * rs.uniform(0.5, 2) + rs.normal(size=D) * 3 for n in per])
         base = np.repeat(np.arange(K), per)
         ref = None
-        for labels in (base, base * 7 + 5, -base - 1, (base + 1) * 10, (K - 1 - base)):
-            w = WCCN().fit(X, labels)
+        for labels, pinv in ((base, False), (base, True), (base * 7 + 5, False), (-base - 1, False), ((base + 1) * 10, True), ((K - 1 - base), False)):
+            w = WCCN(pinv=pinv).fit(X, labels)
             W = np.asarray(w.weights)
             Y = np.asarray(w.transform([X]))[0]
             Sw = np.zeros((D, D))
@@ -22,7 +22,7 @@ def mode_wccn(p):
                 Z = Z - Z.mean(axis=0)
                 Sw += Z.T @ Z
             if not close(Sw / len(set(labels.tolist())), np.eye(D), 1e-7):
-                return {"input": {"labels": labels.tolist()}, "observed": (Sw / K).tolist(), "expected": np.eye(D).tolist(),
+                return {"input": {"labels": labels.tolist(), "pinv": pinv}, "observed": (Sw / K).tolist(), "expected": np.eye(D).tolist(),
                         "what": "within-class scatter of the WCCN-transformed data / n_classes is not the identity"}
             if not (np.allclose(W, np.tril(W)) and np.all(np.diag(W) > 0)):
                 return {"what": "WCCN projection is not lower-triangular with positive diagonal"}
@@ -40,7 +40,7 @@ def mode_whitening(p):
         rs = np.random.RandomState(seed)
         D = rs.randint(1, 4)
         X = rs.normal(size=(D + 3 + rs.randint(0, 5), D)) @ rs.normal(size=(D, D)) + rs.normal(size=D) * 4
-        w = Whitening().fit(X)
+        w = Whitening(pinv=bool(seed % 2)).fit(X)
         Y = np.asarray(w.transform(X))
         if not close(Y.mean(axis=0), np.zeros(D), 1e-8) or not close(np.atleast_2d(np.cov(Y.T)), np.eye(D), 1e-7):
             return {"observed": np.atleast_2d(np.cov(Y.T)).tolist(), "what": "whitened training data do not have zero mean and identity covariance"}
